@@ -47,6 +47,7 @@ type l16 struct {
 	aimN     int
 	aimSvc   string // a service of aimChain the aimed probes prefer
 	hub      bool   // the other BitXHub is registered: some probes arrive from it
+	allPids  []string
 	script   []func() (pb.Transaction, string, []string)
 }
 
@@ -121,6 +122,27 @@ func (l *l16) scriptCascadeOverLoggedOutService(chain string) {
 			l.aimChain, l.aimN, l.aimSvc = chain, 8, s1
 			return nil, "", nil
 		})
+}
+
+// scriptRejectedRuleUpdate: a master-rule update is voted down: the old master rule is the chain's available
+// master again (the chain itself stays paused until it is activated).
+func (l *l16) scriptRejectedRuleUpdate(chain string) {
+	w := l.world
+	reject := func(i int) func() (pb.Transaction, string, []string) {
+		return func() (pb.Transaction, string, []string) {
+			if len(l.open) == 0 {
+				return nil, "", nil
+			}
+			pid := l.open[len(l.open)-1]
+			return w.BVM(harness.AdminKey(i), harness.AddrGov, "Vote", pb.String(pid), pb.String("reject"), pb.String("r")), fmt.Sprintf("vote reject on %s (scripted)", pid), []string{l.objOf[pid], chain}
+		}
+	}
+	l.script = append(l.script, func() (pb.Transaction, string, []string) {
+		if l.rule2[chain] == "" {
+			return nil, "", nil
+		}
+		return w.BVM(harness.ChainAdmin(chain), harness.AddrRule, "UpdateMasterRule", pb.String(chain), pb.String(l.rule2[chain]), pb.String("r")), "UpdateMasterRule " + chain + " (scripted, to be voted down)", []string{chain, l.rule2[chain]}
+	}, reject(0), reject(1), reject(2), reject(3))
 }
 
 // scriptLogoutWhileFreezePending: a freeze of the appchain is proposed and left undecided, then the chain's
@@ -281,6 +303,7 @@ func (l *l16) govOp() []string {
 		l.w.Count("gov_ops_accepted", 1)
 		if pid := harness.ProposalID(rc); pid != "" && strings.Contains(string(rc.Ret), "proposal_id") {
 			l.open = append(l.open, pid)
+			l.allPids = append(l.allPids, pid)
 			if len(concerns) > 0 {
 				l.objOf[pid] = concerns[0]
 			}
@@ -323,6 +346,41 @@ func (l *l16) observe(concerns []string, h uint64) {
 		// cause: an operation / vote concerning the object or its owning chain in this block
 		if !conc[o.id] && !conc[o.chain] && !(o.class == "service" && conc[strings.Split(o.id, ":")[0]]) {
 			l.viol("lifecycle:change-without-cause:"+o.class, fmt.Sprintf("block %d: %s %s moved %s -> %s but the block's transaction concerned %v", h, o.class, o.id, old, st, concerns))
+		}
+	}
+}
+
+// checkMasterRules: an appchain that is not logged out has a master rule, and while no rule proposal of the
+// chain is undecided that rule is available - a rejected update puts the old master back, an approved one
+// makes the new master available.
+func (l *l16) checkMasterRules(h uint64) {
+	for _, chain := range []string{harness.ChainA, harness.ChainB, harness.ChainC} {
+		if st := l.query(lcObj{class: "appchain", id: chain}); st == "forbidden" || st == model.LcNone || st == "registering" {
+			continue
+		}
+		rc := l.world.R.Query(harness.AddrRule, "GetMasterRule", pb.String(chain))
+		l.w.Count("obs_master_rule_reads", 1)
+		var r struct {
+			Address string `json:"address"`
+			Status  string `json:"status"`
+		}
+		if rc.Status != pb.Receipt_SUCCESS || json.Unmarshal(rc.Ret, &r) != nil || r.Status == "available" {
+			continue
+		}
+		pending := false
+		for _, pid := range l.allPids {
+			prc := l.world.R.Query(harness.AddrGov, "GetProposal", pb.String(pid))
+			var p struct {
+				Typ    string `json:"Typ"`
+				Status string `json:"status"`
+				ObjId  string `json:"obj_id"`
+			}
+			if prc.Status == pb.Receipt_SUCCESS && json.Unmarshal(prc.Ret, &p) == nil && p.Typ == "rule_mgr" && strings.HasPrefix(p.ObjId, chain) && (p.Status == "proposed" || p.Status == "paused") {
+				pending = true
+			}
+		}
+		if !pending {
+			l.viol("lifecycle:master-rule-not-available:"+r.Status, fmt.Sprintf("block %d: appchain %s is not logged out and has no undecided rule proposal, but its master rule %s has status %s", h, chain, r.Address, r.Status))
 		}
 	}
 }
@@ -558,6 +616,9 @@ func lc16Case(w *vlog.W, a *wargs, id int, rng *rand.Rand, opts harness.Options)
 	case 4:
 		l.scriptLogoutWhileFreezePending(chain)
 		l.shape["scripted:logout-while-freeze-pending"] = true
+	case 5:
+		l.scriptRejectedRuleUpdate(chain)
+		l.shape["scripted:rule-update-voted-down"] = true
 	}
 	for s := 0; s < 70; s++ {
 		if rng.Intn(12) == 0 { // restart: cached and stored service records must give the same gate
@@ -574,6 +635,7 @@ func lc16Case(w *vlog.W, a *wargs, id int, rng *rand.Rand, opts harness.Options)
 		if rng.Intn(5) < 3 {
 			concerns := l.govOp()
 			l.observe(concerns, world.R.Height())
+			l.checkMasterRules(world.R.Height())
 		} else {
 			before := map[string]string{}
 			for k, v := range l.status {
